@@ -47,13 +47,44 @@ struct InStats {
     values: u64,
     mixed_mid_step: u64,
     in_guards: u64,
+    shadow_checked: u64,
 }
 
 /// every `in` mark: each reported In(x) equals membership of x in the configuration at that call
-fn check_in_probes(log: &[crate::rec::Entry], names: &HashMap<u32, String>, session: u32, st: &mut InStats) -> Result<(), (String, String)> {
+fn check_in_probes(log: &[crate::rec::Entry], names: &HashMap<u32, String>, session: u32, tracer: u32, top_finals: &[String], st: &mut InStats) -> Result<(), (String, String)> {
     let mut in_select = false;
     let mut in_micro = false;
+    // Shadow configuration, independent of the interpreter's own set: a state is a member from its
+    // entry until its onexit content has completed (W3C exitStates removes it after the handlers), i.e.
+    // until the next state's exit begins or exitStates / exitInterpreter returns.
+    let mut shadow: std::collections::BTreeSet<u32> = std::collections::BTreeSet::new();
+    let mut leaving: Option<u32> = None;
+    // exitInterpreter is not traced: the shadow is not maintained once termination has begun
+    let mut terminating = false;
     for e in log {
+        if e.tracer == tracer {
+            match &e.ev {
+                Ev::Enter(id, n) => {
+                    shadow.insert(*id);
+                    if top_finals.iter().any(|f| f == n) {
+                        terminating = true;
+                    }
+                }
+                Ev::XRecv(ev) if ev.name == crate::refsim::CANCEL => terminating = true,
+                Ev::Exit(id, _) => {
+                    if let Some(p) = leaving.take() {
+                        shadow.remove(&p);
+                    }
+                    leaving = Some(*id);
+                }
+                Ev::MOut(m) if m == "exitStates" || m == "exitInterpreter" => {
+                    if let Some(p) = leaving.take() {
+                        shadow.remove(&p);
+                    }
+                }
+                _ => {}
+            }
+        }
         match &e.ev {
             Ev::MIn(m) if m == "selectTransitions" || m == "selectEventlessTransitions" => in_select = true,
             Ev::MOut(m) if m == "selectTransitions" || m == "selectEventlessTransitions" => in_select = false,
@@ -88,6 +119,18 @@ fn check_in_probes(log: &[crate::rec::Entry], names: &HashMap<u32, String>, sess
                                 format!("In('{}') returned {} while the configuration at that moment was {:?}", name, reported, active),
                             ));
                         }
+                        let shadow_is = shadow.iter().any(|i| names.get(i).map(|n| n == name).unwrap_or(false));
+                        if terminating {
+                            continue;
+                        }
+                        if reported != shadow_is {
+                            let sh: Vec<&String> = shadow.iter().filter_map(|i| names.get(i)).collect();
+                            return Err((
+                                "in-disagrees-with-entered-and-exited-states".to_string(),
+                                format!("In('{}') returned {} but the states entered and not yet exited at that moment are {:?}", name, reported, sh),
+                            ));
+                        }
+                        st.shadow_checked += 1;
                     }
                 }
                 if in_micro && t > 0 && f > 0 {
@@ -627,7 +670,8 @@ pub fn run(args: &Args, rep: &mut Report) {
                 })
                 .unwrap_or(0);
             let before = st.mixed_mid_step;
-            if let Err((k, what)) = check_in_probes(&out.res.log, &info.names, sid, &mut st) {
+            let top_finals: Vec<String> = doc.root.children.iter().filter(|c| c.kind == Kind::Final).map(|c| c.id.clone()).collect();
+            if let Err((k, what)) = check_in_probes(&out.res.log, &info.names, sid, out.res.tracer, &top_finals, &mut st) {
                 rep.violation(&k, &format!("[{}] {}", dm.name(), what), witness(&doc, &xml, &path, &exp.lines, &out.observed, json!({})));
                 continue;
             }
@@ -645,4 +689,5 @@ pub fn run(args: &Args, rep: &mut Report) {
     rep.count("in_values_checked", st.values);
     rep.count("in_probes_mid_microstep_mixed", st.mixed_mid_step);
     rep.count("in_probes_in_guards", st.in_guards);
+    rep.count("in_values_checked_against_entered_minus_exited", st.shadow_checked);
 }
